@@ -16,6 +16,7 @@ package genql
 import (
 	"bytes"
 	"fmt"
+	"strings"
 )
 
 // The input is copied byte by byte: the quote characters are ASCII, and bytes of
@@ -81,6 +82,16 @@ func DoubleQuotesToBackTick(str string) (string, error) {
 				i--
 				continue
 			}
+		case '/', '-', '#':
+			{
+				// a comment is copied as it is: a quote inside it opens nothing
+				if end := commentEnd(str, i); end > i {
+					buffer.WriteString(str[i:end])
+					i = end - 1
+					continue
+				}
+				buffer.WriteByte(byte(r))
+			}
 		default:
 			{
 				buffer.WriteByte(byte(r))
@@ -90,6 +101,32 @@ func DoubleQuotesToBackTick(str string) (string, error) {
 	return buffer.String(), nil
 }
 
+// commentEnd returns the index behind the comment that starts at str[i], as
+// the SQL parser reads comments (/* ... */, and to the end of the line: --
+// followed by white space, # and //), or i if no comment starts there
+func commentEnd(str string, i int) int {
+	rest := str[i:]
+	line := false
+	switch {
+	case strings.HasPrefix(rest, "/*"):
+		if end := strings.Index(rest[2:], "*/"); end >= 0 {
+			return i + 2 + end + 2
+		}
+		return len(str)
+	case strings.HasPrefix(rest, "--"):
+		line = len(rest) == 2 || rest[2] == ' ' || rest[2] == '\t' || rest[2] == '\n' || rest[2] == '\r'
+	case strings.HasPrefix(rest, "#"), strings.HasPrefix(rest, "//"):
+		line = true
+	}
+	if !line {
+		return i
+	}
+	if end := strings.IndexByte(rest, '\n'); end >= 0 {
+		return i + end + 1
+	}
+	return len(str)
+}
+
 func FindArrayIndex(str string) ([][]int, error) {
 	var hold *rune
 	output := make([][]int, 0)
@@ -97,6 +134,13 @@ func FindArrayIndex(str string) ([][]int, error) {
 	pos := 0
 	for i := 0; i < len(str); i++ {
 		r := str[i]
+		// a comment holds neither quotes nor brackets
+		if hold == nil {
+			if end := commentEnd(str, i); end > i {
+				i = end - 1
+				continue
+			}
+		}
 		switch r {
 		case '\\':
 			{
